@@ -29,6 +29,7 @@ func init() {
 			{ID: "C03.3", Doc: "stalled armed only when nothing is in flight and nothing qualifies", Floor: 2, Run: c03r3},
 			{ID: "C03.4", Doc: "Stop completes", Floor: 5, Run: c03r4},
 			{ID: "C03.5", Doc: "who may be left unqueried at stall", Floor: 4, Run: c03r5},
+			{ID: "C03.10", Doc: "a learned contact is kept out of the frontier only because it was already queried or the node filter rejected it, and leaves the frontier only by being popped for its query", Floor: 3, Run: c03r10},
 			{ID: "C03.9", Doc: "an address is marked as queried only when its query is started: every insertion into the queried set is followed, on every path, by the start of the query goroutine", Floor: 1, Run: c03r9},
 			{ID: "C03.8", Doc: "the run loop goes to sleep only after re-testing whether another query can be started: between starting a query and the wait it always re-evaluates outstanding < Alpha", Floor: 1, Run: c03r8},
 			{ID: "C03.7", Doc: "the frontier's order is total on distinct contacts, so no learned contact is dropped as a duplicate of another (shared with C18.3)", Floor: 4, Run: c18r3},
@@ -822,5 +823,83 @@ func c03r9(w *World, rr *RuleRun) {
 	})
 	if n == 0 {
 		rr.Oblige("traversal", "marking an address as queried is followed by the start of its query", "-", false, "no insertion into the queried set")
+	}
+}
+
+// c03r10: "every contact it has learned that passes the node filter has been queried" needs the
+// frontier to accept every such contact and to lose one only to startQuery. Any other refusal (a
+// second "already pending" set keyed by address, a cap) or removal (shedding the farthest) makes
+// contacts vanish unqueried.
+func c03r10(w *World, rr *RuleRun) {
+	t := w.trav()
+	// (1) refusals of the insertion routine: the function that stores op.unqueried = unqueried.Add(x)
+	n := 0
+	eachInstr(w.P.LibFuncs, func(fn *ssa.Function, ins ssa.Instruction) {
+		st, ok := ins.(*ssa.Store)
+		if !ok || fieldOfAddr(st.Addr) != t.unqueried {
+			return
+		}
+		v := w.TS.Of(st.Val)
+		if v.Op != OpCall || !(suffixName(v) == "Add") {
+			return
+		}
+		n++
+		f := enclosingNamed(fn)
+		fa := w.FE.analysisFor(f)
+		errT := types.Universe.Lookup("error").Type()
+		res := f.Signature.Results()
+		if res.Len() == 0 || !types.Identical(res.At(res.Len()-1).Type(), errT) {
+			return
+		}
+		for _, ex := range fa.exits {
+			if len(ex.ret.Results) != res.Len() {
+				continue
+			}
+			bad := ""
+			seen := false
+			for _, alt := range ex.st {
+				rv := w.FE.Resolve(alt, ex.ret.Results[res.Len()-1])
+				if rv.IsConst("nil") {
+					continue
+				}
+				seen = true
+				queried := alt.Has("b", true, func(x *Term) bool {
+					cc, i := stripExtract(x)
+					return i == 1 && cc.Op == OpLookup && isFieldTerm(cc.Args[0], t.queried)
+				})
+				filtered := alt.Has("b", false, func(x *Term) bool { _, ok := dynThrough(x, t.nodeFilter); return ok })
+				if !queried && !filtered {
+					bad = "refused although neither already queried nor rejected by the filter: {" + trunc(strings.Join(alt.Facts(), " ∧ "), 200) + "}"
+				}
+			}
+			if seen {
+				rr.At(w, ex.ret, "the frontier refuses a contact only if it was already queried or the filter rejected it", bad == "", bad)
+			}
+		}
+	})
+	if n == 0 {
+		rr.Oblige("traversal", "the frontier has an insertion routine", "-", false, "no unqueried = unqueried.Add(x)")
+	}
+	// (2) removals: only the pop that feeds startQuery
+	sq := w.P.Func("(*traversal.Operation).startQuery")
+	nDel := 0
+	eachInstr(w.P.LibFuncs, func(fn *ssa.Function, ins ssa.Instruction) {
+		st, ok := ins.(*ssa.Store)
+		if !ok || fieldOfAddr(st.Addr) != t.unqueried {
+			return
+		}
+		v := w.TS.Of(st.Val)
+		// a method applied to the current frontier (Delete, or anything else that is not Add); the
+		// initial value stored by the constructor is not a removal
+		if v.Op != OpCall || suffixName(v) == "Add" || len(v.Args) == 0 || !isFieldTerm(v.Args[0], t.unqueried) {
+			return
+		}
+		nDel++
+		f := enclosingNamed(fn)
+		okPop := f == sq || w.withinUp(f, sq)
+		rr.At(w, ins, "a contact leaves the frontier only by being popped for its query", okPop, "unqueried = "+trunc(v.String(), 80)+" in "+shortFuncName(f))
+	})
+	if nDel == 0 {
+		rr.Oblige("traversal", "the frontier is consumed by startQuery", "-", false, "no removal from unqueried")
 	}
 }
